@@ -178,7 +178,13 @@ def rmCallViolation (nilJoin : Bool) (inj : List (Nat × Nat)) (h : List Obs) (r
       some (s!"rm-snapshot: call {r.id} (key {r.key}) was handed the content of the destination variable of call {v - 900000} as it was " ++
             "AFTER that call had returned: the shared result aliases the leader's memory instead of being a snapshot made inside the execution")
     else match h.find? (fun c => c.id = v && c.created) with
-      | some c => some (s!"rm-snapshot: call {r.id} (key {r.key}) got instance {v}, which the create of call {c.id} made for key {c.key}: " ++
+      | some c =>
+        -- (key n of object i is written 100·i + n: the same key string on another object)
+        if c.key % 100 = r.key % 100 then
+          some (s!"rm-same-instance(cross-object): call {r.id} on object {r.key / 100} (key {r.key % 100}) was handed instance {v}, which the create " ++
+                s!"of call {c.id} made for the same key on object {c.key / 100}: state (flight group / map) is shared between objects, " ++
+                "an object no longer hands ITS one instance to everyone")
+        else some (s!"rm-snapshot: call {r.id} (key {r.key}) got instance {v}, which the create of call {c.id} made for key {c.key}: " ++
                         "not a value any execution for its own key produced")
       | none => some s!"rm-same-instance: call {r.id} (key {r.key}) got instance {v} which no successful create of that key made"
   | none, some e =>
